@@ -14,7 +14,14 @@ use gamedig::protocols::types::{CommonResponse, ExtraRequestSettings, GatherTogg
 use gamedig::protocols::{gamespy, quake, GenericResponse, Protocol};
 
 pub fn entries() -> Vec<(&'static str, crate::EntryFn)> {
-    vec![("dispatch", entry_dispatch), ("dispatch-module", entry_dispatch_module), ("extra-conv", entry_extra_conv)]
+    // `arms-dispatch` / `arms-conv`: the same real code; the model side answers them with the TRANSLATED glue (Run/Arms.lean)
+    vec![
+        ("dispatch", entry_dispatch),
+        ("dispatch-module", entry_dispatch_module),
+        ("extra-conv", entry_extra_conv),
+        ("arms-dispatch", entry_dispatch),
+        ("arms-conv", entry_extra_conv),
+    ]
 }
 
 /// the printed form of whatever a path returned
